@@ -150,6 +150,7 @@ func mSplitN2(f *frame, args []Val, c *ssa.CallCommon, pos string) Val {
 	if args[2].S != "2" || !strings.HasPrefix(args[1].S, "\"") || args[1].S == "\"\"" {
 		panic(unsupported("strings.SplitN other than SplitN(s, <non-empty constant>, 2)"))
 	}
+	f.trust("strings.SplitN(s, sep, 2) with a constant non-empty sep is modelled in the SMT string theory: [s] if sep does not occur, else [text before the first occurrence, text after it]")
 	s, sep := args[0].S, args[1].S
 	i := x.vc.Def("split.i", "Int", app("str.indexof", s, sep, "0"))
 	found := app(">=", i, "0")
